@@ -27,6 +27,7 @@ def run(chk):
     batcher.who_may(chk, P, "C06")
     batcher.retry_remainder(chk, P, "C06")
     batcher.batch_error_helpers(chk, P, "C06")
+    batcher.bounded_retry(chk, P, "C06.retry")
     batcher.parametricity(chk, P, "C06")
     batcher.receiver_flags(chk, P, "C06")
     batcher.termination(chk, P, "C06")
